@@ -943,6 +943,20 @@ public:
         "tainted<int, T_Sbx> foo(rlbox_sandbox<T_Sbx>& sandbox, "
         "tainted<int, T_Sbx> a, tainted<int, T_Sbx> b) {...}\n");
     }
+    else if_constexpr_named(
+      cond5,
+      !((std::is_same_v<detail::rlbox_get_wrapper_sandbox_t<T_Args>, T_Sbx> &&
+         ...) &&
+        std::is_same_v<
+          detail::rlbox_get_wrapper_sandbox_t<
+            std::conditional_t<std::is_void_v<T_Ret>, tainted<int, T_Sbx>, T_Ret>>,
+          T_Sbx>))
+    {
+      rlbox_detail_static_fail_because(
+        cond5,
+        "The tainted/tainted_opaque arguments and return value of the callback "
+        "must belong to the sandbox type the callback is registered with.");
+    }
     else
     {
       detail::dynamic_check(
